@@ -38,6 +38,7 @@ def decCase : List String → Option Case
 
 def stepLine (s : S) (req resp : List String) : S × List String :=
   match req with
+  | "mismatch" :: prop :: rest => (s, [s!"MON {prop} " ++ " ".intercalate (rest.take 40)])
   | ["new", _] => (s, [])
   | "case" :: rest =>
     match decCase rest, resp with
